@@ -12,6 +12,8 @@ def register(db):
     register_union_bind(db)
     register_pop_wrapper(db)
     register_skip_node_scope(db)
+    register_element_bind(db)
+    register_leaf_nodes(db)
     P = ["C15"]
     assume_method(db, "NodeParserObj", "start", raises=["ParserError", "ConverterError", "XmlContextError"])
     assume_method(db, "NodeParserObj", "end", returns="bool", raises=["ParserError", "ConverterError", "XmlContextError"])
@@ -166,3 +168,60 @@ def register_skip_node_scope(db):
         raises={}, properties=["C15", "C10"],
         note="harness over the real SkipNode constructor (inlined): reading ns_map of a fresh SkipNode raises nothing",
     ))
+
+
+def register_element_bind(db):
+    """ElementNode.bind: the object for an ending element is built by the configured class factory from the bound
+    parameters; a document that leaves a required constructor argument out (or gives one the class does not take) makes
+    that factory raise TypeError - which must reach the caller as the library's ParserError, like in the JSON decoder."""
+    from .c10_strictness import element_node, NODES
+    EL = f"{NODES}.element:ElementNode"
+    db.add(Contract(f"{EL}.bind_attrs", variant="call-view", trusted=True, call_default=True, params={}, modifies=["params"],
+                    raises={"ParserError": True, "ConverterError": True},
+                    note="call-site view (the function itself is verified: strictness and attribute order)"))
+    db.add(Contract(f"{EL}.bind_content", variant="call-view", trusted=True, call_default=True, params={}, modifies=["params"],
+                    raises={"ParserError": True, "ConverterError": True, "XmlContextError": True}))
+    collab.field(db, "XmlMeta", "nillable", "bool")
+    db.add(Contract(
+        f"{EL}.bind", variant="object-construction",
+        params={"self": element_node, "qname": "str", "text": "str|None", "tail": "str|None", "objects": "opaque:PyList"},
+        ensures=[("always-succeeds-when-it-returns", "result == True"),
+                 ("the-object-is-queued-under-the-element-name", "called('PyList.append') >= 1")],
+        raises={"ParserError": True, "ConverterError": True, "XmlContextError": True},
+        properties=["C15", "C10"],
+        note="class_factory is an assumed collaborator that may raise TypeError (missing / unexpected constructor argument)",
+    ))
+
+
+def register_leaf_nodes(db):
+    """PrimitiveNode.bind / StandardNode.bind: the text of a leaf element is converted once, by the field's converter
+    under the parser options, with the prefix map of *that* element (QName content); only documented errors escape."""
+    from .c10_strictness import NODES
+    PV = "ParserUtils.parse_var"
+    collab.field(db, "XmlMeta", "mixed_content", "bool")
+    collab.field(db, "DataType", "type", "u:type")
+    collab.field(db, "DataType", "format", "str|None")
+    collab.field(db, "DataType", "wrapper", "u:Any")  # a callable or a falsy value
+    db.opaque_ops[("Types", "contains")] = lambda ex, st, v, item: iter([(st, __import__("pyvc.contracts", fromlist=["pure_result"]).pure_result(ex, st, "Types.has", "bool", [v]))])
+
+    def primitive(mk, base):
+        return mk.obj(f"{NODES}.primitive:PrimitiveNode", {"meta": "opaque:XmlMeta", "var": "opaque:XmlVar", "ns_map": "opaque:PyDict",
+                                                           "config": "opaque:ParserConfig"})
+
+    def standard(mk, base):
+        return mk.obj(f"{NODES}.standard:StandardNode", {"meta": "opaque:XmlMeta", "var": "opaque:XmlVar", "datatype": "opaque:DataType",
+                                                         "ns_map": "opaque:PyDict", "config": "opaque:ParserConfig", "nillable": "bool",
+                                                         "derived_factory": "opaque:Any"})
+
+    ARGS = {"qname": "str", "text": "str|None", "tail": "str|None", "objects": "opaque:PyList"}
+    COMMON = [("always-succeeds-when-it-returns", "result == True"),
+              ("the-text-is-converted-once-in-the-element-own-scope",
+               f"called('{PV}') == 1 and call_arg('{PV}', 1) is self.meta and call_arg('{PV}', 2) is self.var and "
+               f"call_arg('{PV}', 3) is self.config and call_arg('{PV}', 4) == text and call_arg('{PV}', 5) is self.ns_map"),
+              ("the-value-is-queued-under-the-element-name", "called('PyList.append') >= 1 and call_arg('PyList.append', 0, 0)[0] == qname")]
+    db.add(Contract(f"{NODES}.primitive:PrimitiveNode.bind", params={"self": primitive, **ARGS}, ensures=COMMON,
+                    raises={"ParserError": True, "ConverterError": True}, properties=["C15", "C09"]))
+    db.add(Contract(f"{NODES}.standard:StandardNode.bind", params={"self": standard, **ARGS},
+                    ensures=COMMON + [("converted-as-the-xsi-type-datatype",
+                                       f"call_arg('{PV}', 7)[0] is self.datatype.type and call_arg('{PV}', 9) == self.datatype.format")],
+                    raises={"ParserError": True, "ConverterError": True}, properties=["C15", "C09"]))
